@@ -615,8 +615,8 @@ class Machine:
             return self.operand(st, fr, rv["op"])
         if k == "ref" or k == "raw_ptr":
             loc = self._resolve(st, fr, rv["place"])
-            if loc[0] == "val":
-                return loc[1] if isinstance(loc[1], Str) else Ref(loc)
+            if loc[0] == "val" and isinstance(loc[1], (Str, Opq)):
+                return loc[1]  # content values / opaque objects are their own referent
             return Ref(loc)
         if k == "aggregate":
             ops = tuple(self.operand(st, fr, o) for o in rv["ops"])
